@@ -384,6 +384,11 @@ theorem specEff_deliveries : ∀ did : List Instr,
     | maildir f => rw [List.filter_cons_of_pos (by rfl), List.map_cons, List.map_cons, ih]; rfl
     | program c => rw [List.filter_cons_of_pos (by rfl), List.map_cons, List.map_cons, ih]; rfl
 
+theorem specEff_deliveries' (did : List Instr) :
+    List.map (specEff ∘ fun i => Effect.deliver (cInstr i)) (did.filter (fun i => !isForward i)) =
+      (did.filterMap effOf).map some := by
+  rw [← List.map_map]; exact specEff_deliveries did
+
 theorem count_file : ∀ did : List Instr,
     ((did.map specOfInstr).filter (fun i => match i with | .mbox _ => true | .maildir _ => true | _ => false)).length =
       (did.filter isFile).length
@@ -534,12 +539,542 @@ theorem deliver_follow (a : Args) (w : World) (cmds : Bytes) (fo : Bool) (r : Re
         split at hf
         · exact dispatch_die_code w.px w.dx hnz _ _ _ y hf
         · exact dispatch_die_code _ _ (by intro i y _ h; simp at h) _ _ _ y hf
-      cases hd : a.doit <;> simp [finCode, hy, Fin.isDie, specEff_deliveries]
+      cases hd : a.doit <;> simp [finCode, hy, Fin.isDie, specEff_deliveries']
     | done =>
       by_cases hd : a.doit = true <;> by_cases hrr : (dtrace a w cmds fo).did.filterMap fwdAddr = [] <;>
-        simp [finCode, hd, hrr, Fin.isDie, specEff_deliveries, specEff]
+        simp [finCode, hd, hrr, Fin.isDie, specEff_deliveries', specEff]
     | stop99 =>
       by_cases hd : a.doit = true <;> by_cases hrr : (dtrace a w cmds fo).did.filterMap fwdAddr = [] <;>
-        simp [finCode, hd, hrr, Fin.isDie, specEff_deliveries, specEff]
+        simp [finCode, hd, hrr, Fin.isDie, specEff_deliveries', specEff]
+
+/-! ### one whole delivery = the documented outcome -/
+
+/-- the model's result `r` is the documented outcome `e`: exit code, effects in order, instructions acted upon, counts,
+and what is printed (with `-n`: everything; when delivering and successful: the counts line first) -/
+def Matches (doit : Bool) (r : Result) (e : LocalSpec.Expect) : Prop :=
+  r.code = e.code ∧ r.effects.map specEff = e.effects.map some ∧ r.did.map specOfInstr = e.shown ∧
+  e.counts = ((r.did.filter isFile).length, (r.did.filter isForward).length, (r.did.filter isProgram).length) ∧
+  (doit = false → r.out = LocalSpec.printedN e) ∧
+  (doit = true → e.code = 0 → ∃ tail, r.out = LocalSpec.didl e.counts ++ tail)
+
+theorem matches_refuse (doit : Bool) (r : Result) (c : Nat) (hc : r.code = c) (hz : c ≠ 0) (he : r.effects = [])
+    (hd : r.did = []) (ho : r.out = []) : Matches doit r (LocalSpec.refuse c) := by
+  refine ⟨hc, by simp [he, LocalSpec.refuse], by simp [hd, LocalSpec.refuse], by simp [hd, LocalSpec.refuse], ?_, ?_⟩
+  · intro _; simp [ho, LocalSpec.printedN, LocalSpec.refuse, hz]
+  · intro _ h; exact absurd h hz
+
+theorem say_describe (i : Instr) : LocalSpec.describe (specOfInstr i) = say i := by cases i <;> rfl
+
+theorem didl_didLine (did : List Instr) :
+    LocalSpec.didl ((did.filter isFile).length, (did.filter isForward).length, (did.filter isProgram).length) = didLine did := rfl
+
+theorem matches_deliver (a : Args) (w : World) (cmds : Bytes) (fo : Bool) (r : Result)
+    (hnz : ∀ i y, isFile i = true → w.dx i = some y → y.code ≠ 0) (hr : r.code = 0) :
+    Matches a.doit (deliver a w cmds fo r)
+      (LocalSpec.follow a.doit fo cmds (r.ueo.getD []) (fun c => toRan (w.px c)) (fileCode w.dx) (LocalSpec.queueVerdict w.qq)) := by
+  obtain ⟨h1, h2, h3, h4⟩ := deliver_follow a w cmds fo r hnz hr
+  have hdie : ∀ y, (dtrace a w cmds fo).fin = .die y → y.code ≠ 0 := by
+    intro y hf
+    unfold dtrace at hf
+    split at hf
+    · exact dispatch_die_code w.px w.dx hnz _ _ _ y hf
+    · exact dispatch_die_code _ _ (by intro i y _ h; simp at h) _ _ _ y hf
+  refine ⟨h1, h2, h3, h4, ?_, ?_⟩
+  · intro hd
+    unfold LocalSpec.printedN
+    rw [← h3, h4, ← h1, didl_didLine, deliver_out_n a w cmds fo r hd, deliver_did, deliver_code]
+    have : ((dtrace a w cmds fo).did.map specOfInstr).map LocalSpec.describe = (dtrace a w cmds fo).did.map say := by
+      rw [List.map_map]; apply List.map_congr_left; intro i _; exact say_describe i
+    rw [this]
+    cases hf : (dtrace a w cmds fo).fin with
+    | die y => simp [Fin.isDie, hdie y hf]
+    | done => simp [Fin.isDie, hd, hr]
+    | stop99 => simp [Fin.isDie, hd, hr]
+  · intro hd h0
+    rw [← h1] at h0
+    rw [h4, didl_didLine, deliver_did]
+    revert h0
+    unfold deliver
+    cases hf : (dtrace a w cmds fo).fin with
+    | die y => simp only [hf]; intro h0; exact absurd h0 (hdie y hf)
+    | done =>
+      by_cases hrr : (dtrace a w cmds fo).did.filterMap fwdAddr = [] <;> cases hq : w.qq <;>
+        simp [hf, hd, hrr, hq, fwdVerdict, Why.code, fwdCodes.1, fwdCodes.2]
+      intro h; split at h <;> simp at h
+    | stop99 =>
+      by_cases hrr : (dtrace a w cmds fo).did.filterMap fwdAddr = [] <;> cases hq : w.qq <;>
+        simp [hf, hd, hrr, hq, fwdVerdict, Why.code, fwdCodes.1, fwdCodes.2]
+      intro h; split at h <;> simp at h
+
+/-- the home directory as the documentation sees it -/
+def entryOf : FStat → LocalSpec.Entry
+  | .absent => .missing
+  | .temp => .unreadable
+  | .reg m c => .file m c
+
+/-- the documentation's view of an invocation of the model (`hm`: mode of the home directory) -/
+def settingOf (a : Args) (w : World) (hm : Nat) : LocalSpec.Setting :=
+  { doit := a.doit, homeMode := hm, loc := a.loc, dash := a.dash, ext := a.ext, host := a.host, sender := a.sender,
+    dflt := a.aliasempty, msg := a.msg, look := fun n => entryOf (w.fs n), present := w.ex,
+    run := fun c => toRan (w.px c), fileOK := fileCode w.dx, queueReply := w.qq }
+
+/-- the plan, as a function of what `qmesearch` found -/
+def planOfSel (dash dflt : Bytes) : Sel → Except Nat (Bytes × Bool)
+  | .nofile => if dash ≠ [] then .error 100 else .ok (dflt, false)
+  | .temp _ => .error 111
+  | .writable _ => .error 111
+  | .found _ m ct => if ct = [] then .ok (dflt, false) else .ok (ct, m &&& 0o100 != 0)
+
+theorem plan_select (fs : Bytes → FStat) (dash dflt : Bytes) : ∀ cs : List Cand,
+    (match LocalSpec.control (fun n => entryOf (fs n)) (cs.map Cand.name) with
+     | none => if dash ≠ [] then Except.error 100 else .ok (dflt, false)
+     | some (_, .file m content) =>
+       if m &&& 2 ≠ 0 then .error 111 else if content = [] then .ok (dflt, false) else .ok (content, m &&& 0o100 != 0)
+     | some (_, _) => .error 111) = planOfSel dash dflt (qmeSelect fs cs)
+  | [] => rfl
+  | c :: rest => by
+    have ih := plan_select fs dash dflt rest
+    simp only [List.map_cons, LocalSpec.control, qmeSelect]
+    cases h : fs c.name with
+    | absent => simpa [entryOf] using ih
+    | temp => simp [entryOf, planOfSel]
+    | reg m ct =>
+      by_cases hm : m &&& 2 = 0
+      · simp [entryOf, planOfSel, patrn, hm]
+      · simp [entryOf, planOfSel, patrn, hm]
+
+theorem plan_eq (a : Args) (w : World) (hm : Nat) :
+    LocalSpec.plan (settingOf a w hm) =
+      planOfSel a.dash a.aliasempty (qmeSelect w.fs (qmeCandidates a.dash (safeext a.ext))) := by
+  unfold LocalSpec.plan
+  simp only [settingOf]
+  rw [← candidates_eq_spec]
+  exact plan_select w.fs a.dash a.aliasempty _
+
+theorem senderFor_eq (a : Args) (w : World) (hm : Nat) :
+    LocalSpec.senderFor (settingOf a w hm) =
+      (match ueoOf a.loc a.dash (safeext a.ext) a.host a.sender w.ex with
+       | .ok u => some u
+       | .error _ => none) := by
+  unfold LocalSpec.senderFor ueoOf
+  simp only [settingOf]
+  rw [← safeext_eq_spec]
+  by_cases hs : a.sender = [] ∨ a.sender = bounceVerp
+  · have hs' : a.sender = [] ∨ a.sender = [35, 64, 91, 93] := by simpa [bounceVerp] using hs
+    simp [hs, hs']
+  · have hs' : ¬ (a.sender = [] ∨ a.sender = [35, 64, 91, 93]) := by simpa [bounceVerp] using hs
+    simp only [hs, hs', if_false]
+    show (match w.ex (dotQmail ++ a.dash ++ safeext a.ext ++ ownerB) with
+      | none => none
+      | some false => some a.sender
+      | some true =>
+        match w.ex (dotQmail ++ a.dash ++ safeext a.ext ++ ownerDefaultB) with
+        | none => none
+        | some od => some (LocalSpec.forwardSender a.loc a.host a.sender true od)) = _
+    cases h1 : w.ex (dotQmail ++ a.dash ++ safeext a.ext ++ ownerB) with
+    | none => rfl
+    | some o1 =>
+      cases o1 with
+      | false => rfl
+      | true =>
+        cases h2 : w.ex (dotQmail ++ a.dash ++ safeext a.ext ++ ownerDefaultB) with
+        | none => rfl
+        | some o2 => cases o2 <;> simp [LocalSpec.forwardSender, hs', ownerB, DASH, AT]
+
+theorem ownerNames_eq (a : Args) (w : World) (hm : Nat) :
+    LocalSpec.ownerNames (settingOf a w hm) = ueoStats a.dash (safeext a.ext) a.sender w.ex := by
+  unfold LocalSpec.ownerNames ueoStats
+  simp only [settingOf]
+  rw [← safeext_eq_spec]
+  by_cases hs : a.sender = [] ∨ a.sender = bounceVerp
+  · have hs' : a.sender = [] ∨ a.sender = [35, 64, 91, 93] := by simpa [bounceVerp] using hs
+    simp [hs, hs']
+  · have hs' : ¬ (a.sender = [] ∨ a.sender = [35, 64, 91, 93]) := by simpa [bounceVerp] using hs
+    simp only [hs, hs', if_false]
+    rfl
+
+/-- **`run` = `LocalSpec.outcome`**: for every invocation and every state of the world in which the home directory can
+be examined, the model of `main()` produces exactly the documented outcome -/
+theorem run_outcome (a : Args) (w : World) (hm : Nat) (hh : w.home = some hm)
+    (hnz : ∀ i y, isFile i = true → w.dx i = some y → y.code ≠ 0) :
+    Matches a.doit (run a w) (LocalSpec.outcome (settingOf a w hm)) := by
+  unfold LocalSpec.outcome
+  rw [plan_eq, senderFor_eq]
+  have hS1 : (settingOf a w hm).homeMode = hm := rfl
+  have hS2 : (settingOf a w hm).doit = a.doit := rfl
+  have hS3 : LocalSpec.loops (settingOf a w hm).loc (settingOf a w hm).host (settingOf a w hm).msg =
+      bouncexf (dtline a.loc a.host) a.msg := (bouncexf_eq_spec a.loc a.host a.msg).symm
+  rw [hS1, hS2, hS3]
+  unfold run
+  rw [hh]
+  by_cases hw0 : hm &&& 2 ≠ 0
+  · have hp : hm &&& patrn ≠ 0 := by simpa [patrn] using hw0
+    have hck : checkhome a.doit (some hm) = (some .homeWritable, false) := by simp [checkhome, hp]
+    rw [hck, if_pos (Or.inl hw0)]
+    exact matches_refuse _ _ 111 (by simp [Why.code, homeWritableCode]) (by simp) rfl rfl rfl
+  have hw : hm &&& 2 = 0 := by simpa using hw0
+  have hw' : ¬ (hm &&& patrn ≠ 0) := by simpa [patrn] using hw
+  by_cases hst : hm &&& 0o1000 ≠ 0 ∧ a.doit = true
+  · have h1 : hm &&& stickyBit ≠ 0 := by simpa [stickyBit] using hst.1
+    have hck : checkhome a.doit (some hm) = (some .homeSticky, false) := by simp [checkhome, hw', h1, hst.2]
+    rw [hck, if_pos (Or.inr hst)]
+    exact matches_refuse _ _ 111 (by simp [Why.code, homeStickyCode]) (by simp) rfl rfl rfl
+  have hcond : ¬ (hm &&& 2 ≠ 0 ∨ (hm &&& 0o1000 ≠ 0 ∧ a.doit = true)) := by
+    intro h; rcases h with h | h
+    · exact h hw
+    · exact hst h
+  simp only [hcond, if_false]
+  -- checkhome lets the run continue (possibly with the sticky warning)
+  have hck : ∃ warn, checkhome a.doit (some hm) = (none, warn) := by
+    unfold checkhome
+    simp only [hw', if_false]
+    by_cases h1 : hm &&& stickyBit ≠ 0
+    · have hd : a.doit = false := by
+        cases hd : a.doit with
+        | false => rfl
+        | true => exact absurd ⟨by simpa [stickyBit] using h1, hd⟩ hst
+      simp [h1, hd]
+    · simp [h1]
+  obtain ⟨warn, hck⟩ := hck
+  rw [hck]
+  simp only
+  by_cases hl : a.doit = true ∧ bouncexf (dtline a.loc a.host) a.msg = true
+  · simp only [hl, and_self, if_true]
+    exact matches_refuse _ _ 100 (by simp [Why.code, loopingCode]) (by simp) rfl rfl rfl
+  simp only [hl, if_false]
+  cases hs : qmeSelect w.fs (qmeCandidates a.dash (safeext a.ext)) with
+  | temp n => exact matches_refuse _ _ 111 rfl (by simp) rfl rfl rfl
+  | writable n => exact matches_refuse _ _ 111 (by simp [Why.code, qmailWritableCode]) (by simp) rfl rfl rfl
+  | nofile =>
+    simp only [planOfSel]
+    by_cases hd : a.dash = []
+    · have hdn : ¬ (a.dash ≠ []) := by simp [hd]
+      simp only [hdn, if_false]
+      cases hu : ueoOf a.loc a.dash (safeext a.ext) a.host a.sender w.ex with
+      | error n => exact matches_refuse _ _ 111 rfl (by simp) rfl rfl rfl
+      | ok u => exact matches_deliver a w a.aliasempty false _ hnz rfl
+    · simp only [hd, ne_eq, not_false_eq_true, if_true]
+      exact matches_refuse _ _ 100 (by simp [Why.code, noMailboxCode]) (by simp) rfl rfl rfl
+  | found c mode content =>
+    simp only [planOfSel]
+    cases hu : ueoOf a.loc a.dash (safeext a.ext) a.host a.sender w.ex with
+    | error n =>
+      by_cases hc : content = []
+      · simp only [hc, if_true]; exact matches_refuse _ _ 111 rfl (by simp) rfl rfl rfl
+      · simp only [hc, if_false]; exact matches_refuse _ _ 111 rfl (by simp) rfl rfl rfl
+    | ok u =>
+      by_cases hc : content = []
+      · simp only [hc, if_true]; exact matches_deliver a w a.aliasempty false _ hnz rfl
+      · simp only [hc, if_false]
+        have hb : (mode &&& 0o100 != 0) = decide (mode &&& xBit ≠ 0) := by
+          by_cases hx : mode &&& 0o100 = 0 <;> simp [xBit, hx]
+        rw [hb]
+        exact matches_deliver a w content _ _ hnz rfl
+
+/-! ### every name opened or examined during a run is confined to the home directory -/
+
+theorem qmeTried_sub (fs : Bytes → FStat) : ∀ (cs : List Cand) (n : Bytes), n ∈ qmeTried fs cs → ∃ c ∈ cs, c.name = n
+  | [], n, h => by simp [qmeTried] at h
+  | c :: rest, n, h => by
+    unfold qmeTried at h
+    split at h
+    · rcases List.mem_cons.1 h with h | h
+      · exact ⟨c, List.mem_cons_self .., h.symm⟩
+      · obtain ⟨d, hd, e⟩ := qmeTried_sub fs rest n h
+        exact ⟨d, List.mem_cons_of_mem _ hd, e⟩
+    · have : n = c.name := by simpa using h
+      exact ⟨c, List.mem_cons_self .., this.symm⟩
+
+theorem deliver_tried (a : Args) (w : World) (cmds : Bytes) (fo : Bool) (r : Result) :
+    (deliver a w cmds fo r).tried = r.tried ∧ (deliver a w cmds fo r).stats = r.stats := by
+  unfold deliver
+  simp only
+  split
+  · exact ⟨rfl, rfl⟩
+  · split
+    · split <;> exact ⟨rfl, rfl⟩
+    · exact ⟨rfl, rfl⟩
+
+/-- the names opened are an initial part of the search, the names given to `stat` are the owner names — or the run
+ended before that stage and the list is empty -/
+theorem run_tried_stats (a : Args) (w : World) :
+    ((run a w).tried = [] ∨ (run a w).tried = qmeTried w.fs (qmeCandidates a.dash (safeext a.ext))) ∧
+    ((run a w).stats = [] ∨ (run a w).stats = ueoStats a.dash (safeext a.ext) a.sender w.ex) := by
+  unfold run
+  split
+  · exact ⟨Or.inl rfl, Or.inl rfl⟩
+  · split
+    · exact ⟨Or.inl rfl, Or.inl rfl⟩
+    · simp only
+      split
+      · exact ⟨Or.inr rfl, Or.inl rfl⟩
+      · exact ⟨Or.inr rfl, Or.inl rfl⟩
+      · split
+        · exact ⟨Or.inr rfl, Or.inl rfl⟩
+        · split
+          · exact ⟨Or.inr rfl, Or.inr rfl⟩
+          · exact ⟨Or.inr (by rw [(deliver_tried ..).1]), Or.inr (by rw [(deliver_tried ..).2])⟩
+      · split
+        · exact ⟨Or.inr rfl, Or.inr rfl⟩
+        · split
+          · exact ⟨Or.inr (by rw [(deliver_tried ..).1]), Or.inr (by rw [(deliver_tried ..).2])⟩
+          · exact ⟨Or.inr (by rw [(deliver_tried ..).1]), Or.inr (by rw [(deliver_tried ..).2])⟩
+
+theorem ownerB_no_dot : DOT ∉ ownerB := by decide
+theorem ownerDefaultB_no_dot : DOT ∉ ownerDefaultB := by decide
+
+theorem ueoStats_confined (dash ext sender : Bytes) (ex : Bytes → Option Bool) (hd : DOT ∉ dash) :
+    ∀ n ∈ ueoStats dash (safeext ext) sender ex, LocalSpec.confined n = true := by
+  have h1 : LocalSpec.confined (dotQmail ++ dash ++ safeext ext ++ ownerB) = true := by
+    rw [List.append_assoc, List.append_assoc]
+    apply confined_of_no_dot
+    intro h
+    rcases List.mem_append.1 h with h | h
+    · exact hd h
+    · rcases List.mem_append.1 h with h | h
+      · exact safeext_no_dot ext h
+      · exact ownerB_no_dot h
+  have h2 : LocalSpec.confined (dotQmail ++ dash ++ safeext ext ++ ownerDefaultB) = true := by
+    rw [List.append_assoc, List.append_assoc]
+    apply confined_of_no_dot
+    intro h
+    rcases List.mem_append.1 h with h | h
+    · exact hd h
+    · rcases List.mem_append.1 h with h | h
+      · exact safeext_no_dot ext h
+      · exact ownerDefaultB_no_dot h
+  intro n hn
+  unfold ueoStats at hn
+  split at hn
+  · simp at hn
+  · simp only at hn
+    split at hn
+    · rcases List.mem_cons.1 hn with rfl | hn
+      · exact h1
+      · have : n = dotQmail ++ dash ++ safeext ext ++ ownerDefaultB := by simpa using hn
+        rw [this]; exact h2
+    · have : n = dotQmail ++ dash ++ safeext ext ++ ownerB := by simpa using hn
+      rw [this]; exact h1
+
+/-- the envelope sender depends on the world only through the names in `ueoStats` -/
+theorem ueoOf_congr (loc dash sx host sender : Bytes) (ex ex' : Bytes → Option Bool)
+    (h : ∀ n ∈ ueoStats dash sx sender ex, ex' n = ex n) :
+    ueoOf loc dash sx host sender ex' = ueoOf loc dash sx host sender ex := by
+  unfold ueoOf
+  unfold ueoStats at h
+  by_cases hs : sender = [] ∨ sender = bounceVerp
+  · simp [hs]
+  · simp only [hs, if_false] at h ⊢
+    cases h1 : ex (dotQmail ++ dash ++ sx ++ ownerB) with
+    | none => rw [h1] at h; rw [h _ (by simp), h1]
+    | some o1 =>
+      cases o1 with
+      | false => rw [h1] at h; rw [h _ (by simp), h1]
+      | true =>
+        rw [h1] at h
+        rw [h (dotQmail ++ dash ++ sx ++ ownerB) (by simp), h1]
+        simp only
+        rw [h (dotQmail ++ dash ++ sx ++ ownerDefaultB) (by simp)]
+
+/-! ### loop detection: the converse -/
+
+/-- file deliveries fail with a file-delivery diagnostic and a non-zero exit code -/
+def DxSane (dx : Instr → Option Why) : Prop :=
+  ∀ i y, isFile i = true → dx i = some y → ∃ c t, y = .fileFail c t ∧ c ≠ 0
+
+theorem DxSane.nz {dx : Instr → Option Why} (h : DxSane dx) : ∀ i y, isFile i = true → dx i = some y → y.code ≠ 0 := by
+  intro i y hi hy
+  obtain ⟨c, t, rfl, hc⟩ := h i y hi hy
+  exact hc
+
+theorem dispatch_die_ne_looping (px : Bytes → PRes) (dx : Instr → Option Why) (hdx : DxSane dx)
+    (lines : List Bytes) (first fo : Bool) (y : Why) (h : (dispatch px dx first fo lines).fin = .die y) : y ≠ .looping := by
+  obtain ⟨pre, raw, post, _, _, e3, _⟩ := dispatch_split px dx lines first fo (by rw [h]; simp)
+  rw [h] at e3
+  rcases line_die px dx raw _ _ y e3 with ⟨_, _, rfl, _⟩ | ⟨i, _, _, _, rfl, _⟩ | ⟨c, _, _, hc, _⟩ | ⟨i, _, hif, _, hd, _⟩
+  · simp
+  · split <;> simp
+  · rcases hc with ⟨_, rfl⟩ | ⟨code, e, _, hk, rfl⟩ <;> simp
+  · obtain ⟨c, t, rfl, _⟩ := hdx i y hif hd; simp
+
+theorem deliver_why_ne_looping (a : Args) (w : World) (cmds : Bytes) (fo : Bool) (r : Result) (hdx : DxSane w.dx)
+    (hr : r.why = none) : (deliver a w cmds fo r).why ≠ some .looping := by
+  unfold deliver
+  cases hf : (dtrace a w cmds fo).fin with
+  | die y =>
+    have : y ≠ .looping := by
+      unfold dtrace at hf
+      split at hf
+      · exact dispatch_die_ne_looping _ _ hdx _ _ _ y hf
+      · exact dispatch_die_ne_looping _ _ (by intro i y _ h; simp at h) _ _ _ y hf
+    simp [hf, this]
+  | done =>
+    simp only [hf]
+    split
+    · cases hq : w.qq <;> simp [fwdVerdict, hr]
+    · simp [hr]
+  | stop99 =>
+    simp only [hf]
+    split
+    · cases hq : w.qq <;> simp [fwdVerdict, hr]
+    · simp [hr]
+
+theorem checkhome_some_ne_looping (d : Bool) (home : Option Nat) (y : Why) (warn : Bool)
+    (hc : checkhome d home = (some y, warn)) : y ≠ .looping := by
+  revert hc
+  unfold checkhome
+  cases home with
+  | none => simp; rintro rfl _; simp
+  | some m =>
+    simp only
+    split
+    · simp; rintro rfl _; simp
+    · split
+      · split
+        · simp; rintro rfl _; simp
+        · simp
+      · simp
+
+/-- the looping diagnostic is given only when delivering a message whose header has this recipient's Delivered-To line -/
+theorem run_looping_only (a : Args) (w : World) (hdx : DxSane w.dx) (h : (run a w).why = some .looping) :
+    a.doit = true ∧ LocalSpec.loops a.loc a.host a.msg = true := by
+  rw [← bouncexf_eq_spec]
+  revert h
+  unfold run
+  rcases hc : checkhome a.doit w.home with ⟨_ | y, warn⟩
+  · simp only
+    split
+    · rename_i hl; intro _; exact hl
+    · split
+      · simp
+      · simp
+      · split
+        · simp
+        · split
+          · simp
+          · intro h; exact absurd h (deliver_why_ne_looping a w _ _ _ hdx rfl)
+      · split
+        · simp
+        · split
+          · intro h; exact absurd h (deliver_why_ne_looping a w _ _ _ hdx rfl)
+          · intro h; exact absurd h (deliver_why_ne_looping a w _ _ _ hdx rfl)
+  · simp only
+    intro h
+    have := checkhome_some_ne_looping _ _ _ _ hc
+    simp at h
+    exact absurd h this
+
+/-! ### the result record handed to the instruction loop is fresh -/
+
+/-- nothing has happened yet: exit code 0, no diagnostic, nothing acted upon, delivered or printed -/
+def Fresh (r : Result) : Prop := r.code = 0 ∧ r.why = none ∧ r.did = [] ∧ r.effects = [] ∧ r.out = []
+
+theorem run_nofile_nodash' (a : Args) (w : World) (hh : HomeOK a w) (hn : NoLoop a)
+    (hs : qmeSelect w.fs (qmeCandidates a.dash (safeext a.ext)) = .nofile) (hd : a.dash = []) (u : Bytes)
+    (hu : ueoOf a.loc a.dash (safeext a.ext) a.host a.sender w.ex = .ok u) :
+    ∃ r0, run a w = deliver a w a.aliasempty false r0 ∧ r0.ueo = some u ∧ Fresh r0 := by
+  obtain ⟨warn, hh⟩ := hh
+  unfold NoLoop at hn; rw [← bouncexf_eq_spec] at hn
+  refine ⟨{ stickyWarn := warn, tried := qmeTried w.fs (qmeCandidates a.dash (safeext a.ext)),
+            stats := ueoStats a.dash (safeext a.ext) a.sender w.ex, ueo := some u }, ?_, rfl, rfl, rfl, rfl, rfl, rfl⟩
+  simp only [run, hh, hn, hs, hu]
+  simp [hd]
+
+theorem run_found' (a : Args) (w : World) (hh : HomeOK a w) (hn : NoLoop a) (c : Cand) (mode : Nat) (content u : Bytes)
+    (hs : qmeSelect w.fs (qmeCandidates a.dash (safeext a.ext)) = .found c mode content)
+    (hu : ueoOf a.loc a.dash (safeext a.ext) a.host a.sender w.ex = .ok u) :
+    ∃ r0, r0.ueo = some u ∧ r0.sel = some c ∧ Fresh r0 ∧
+      run a w = if content = [] then deliver a w a.aliasempty false r0 else deliver a w content (mode &&& xBit ≠ 0) r0 := by
+  obtain ⟨warn, hh⟩ := hh
+  unfold NoLoop at hn; rw [← bouncexf_eq_spec] at hn
+  refine ⟨{ stickyWarn := warn, tried := qmeTried w.fs (qmeCandidates a.dash (safeext a.ext)),
+            stats := ueoStats a.dash (safeext a.ext) a.sender w.ex, sel := some c,
+            dfltEnv := c.dflt.map (fun i => a.ext.drop i), ueo := some u }, rfl, rfl, ⟨rfl, rfl, rfl, rfl, rfl⟩, ?_⟩
+  simp only [run, hh, hn, hs, hu]
+  simp
+
+theorem run_cases' (a : Args) (w : World) :
+    (∃ code, code ≠ 0 ∧ Refused (run a w) code) ∨
+    (∃ r0, Fresh r0 ∧ run a w = deliver a w a.aliasempty false r0) ∨
+    (∃ c mode content r0, qmeSelect w.fs (qmeCandidates a.dash (safeext a.ext)) = .found c mode content ∧ content ≠ [] ∧
+        Fresh r0 ∧ run a w = deliver a w content (mode &&& xBit ≠ 0) r0) := by
+  unfold run
+  rcases hc : checkhome a.doit w.home with ⟨_ | y, warn⟩
+  · simp only
+    split
+    · left; exact ⟨_, by simp [Why.code, loopingCode], rfl, rfl, rfl, rfl⟩
+    · cases hs : qmeSelect w.fs (qmeCandidates a.dash (safeext a.ext)) with
+      | temp n => left; exact ⟨111, by simp, rfl, rfl, rfl, rfl⟩
+      | writable n => left; exact ⟨_, by simp [Why.code, qmailWritableCode], rfl, rfl, rfl, rfl⟩
+      | nofile =>
+        simp only
+        split
+        · left; exact ⟨_, by simp [Why.code, noMailboxCode], rfl, rfl, rfl, rfl⟩
+        · split
+          · left; exact ⟨111, by simp, rfl, rfl, rfl, rfl⟩
+          · right; left; exact ⟨_, ⟨rfl, rfl, rfl, rfl, rfl⟩, rfl⟩
+      | found c mode content =>
+        simp only
+        split
+        · left; exact ⟨111, by simp, rfl, rfl, rfl, rfl⟩
+        · split
+          · right; left; exact ⟨_, ⟨rfl, rfl, rfl, rfl, rfl⟩, rfl⟩
+          · rename_i hne
+            right; right; exact ⟨c, mode, content, _, rfl, hne, ⟨rfl, rfl, rfl, rfl, rfl⟩, rfl⟩
+  · left
+    exact ⟨y.code, by rw [checkhome_some_code _ _ _ _ hc]; simp, rfl, rfl, rfl, rfl⟩
+
+/-! ### `+list` in the middle of a file; the owner rule without the superfluous hypothesis -/
+
+/-- once forward-only (x bit, or `+list` among the lines read so far), only forward lines are acted upon -/
+theorem dispatch_after_list (px : Bytes → PRes) (dx : Instr → Option Why) (pre rest : List Bytes) (first fo : Bool)
+    (hpre : (dispatch px dx first fo pre).fin = .done) (hfo : foAfter fo pre = true) :
+    ∃ d, (dispatch px dx first fo (pre ++ rest)).did = instrsOf pre ++ d ∧ ∀ i ∈ d, isForward i = true := by
+  rw [dispatch_append px dx pre rest first fo hpre, hfo]
+  exact ⟨_, rfl, dispatch_forwardonly px dx rest _⟩
+
+/-- …and the first file or program line met in that state ends the run with the x-bit diagnostic, nothing of it
+or after it being acted upon -/
+theorem dispatch_after_list_refuses (px : Bytes → PRes) (dx : Instr → Option Why) (pre : List Bytes) (raw : Bytes)
+    (post : List Bytes) (first fo : Bool) (i : Instr)
+    (hpre : (dispatch px dx first fo pre).fin = .done) (hfo : foAfter fo pre = true)
+    (hc : classify raw = .act i) (hi : isForward i = false) :
+    dispatch px dx first fo (pre ++ raw :: post) = ⟨instrsOf pre, .die (if isProgram i then .xbitProg else .xbitFile)⟩ := by
+  rw [dispatch_append px dx pre (raw :: post) first fo hpre, hfo]
+  cases i with
+  | forward a => simp [isForward] at hi
+  | program c => simp [dispatch, hc, isProgram]
+  | mbox f => simp [dispatch, hc, isProgram]
+  | maildir f => simp [dispatch, hc, isProgram]
+
+/-- the -owner rule; the `-owner-default` name matters (and is examined) only if the `-owner` name exists -/
+theorem ueoOf_eq_spec' (loc dash sx host sender : Bytes) (ex : Bytes → Option Bool) (o1 o2 : Bool)
+    (h1 : ex (dotQmail ++ dash ++ sx ++ ownerB) = some o1)
+    (h2 : o1 = true → ex (dotQmail ++ dash ++ sx ++ ownerDefaultB) = some o2) :
+    ueoOf loc dash sx host sender ex = .ok (LocalSpec.forwardSender loc host sender o1 (o1 && o2)) := by
+  cases o1 with
+  | true => simpa using ueoOf_eq_spec loc dash sx host sender ex true o2 h1 (h2 rfl)
+  | false =>
+    unfold ueoOf LocalSpec.forwardSender
+    by_cases hs : sender = [] ∨ sender = bounceVerp
+    · have hs' : sender = [] ∨ sender = [35, 64, 91, 93] := by simpa [bounceVerp] using hs
+      simp [hs, hs']
+    · have hs' : ¬ (sender = [] ∨ sender = [35, 64, 91, 93]) := by simpa [bounceVerp] using hs
+      simp only [hs, hs', if_false, h1]
+      simp
+
+theorem uflinePrefix_noLF (sender : Bytes) : LF ∉ uflinePrefix sender := by
+  unfold uflinePrefix
+  intro h
+  rcases List.mem_append.1 h with h | h
+  · rcases List.mem_append.1 h with h | h
+    · simp [LF] at h
+    · split at h
+      · simp [LF] at h
+      · obtain ⟨c, _, hc⟩ := List.mem_map.1 h
+        split at hc
+        · simp [LF, DASH] at hc
+        · rename_i hn; exact hn (Or.inr (Or.inr hc))
+  · simp [LF, SP] at h
 
 end Nq.Lemmas.Local
